@@ -795,10 +795,12 @@ func gen(r *lib.Rand, tier string, emit func(string)) {
 		// each option kind alone and all together, lengths not a multiple of 4
 		u := func(v uint64) *uint64 { return &v }
 		q := uint32(7)
+		q0 := uint32(0)
 		optSets := []pktOpts{
 			{flags: &[4]uint32{1, 4, 32, 1 << 31}},
 			{hashes: []tagged{{2, []byte{1, 2, 3, 4}}, {0, nil}, {3, []byte{9}}}},
 			{drop: u(2)}, {pid: u(0x1234567890abcdef)}, {queue: &q},
+			{drop: u(0), pid: u(0), queue: &q0}, // zero-valued numbers are still options
 			{verdicts: []tagged{{2, []byte{0, 0, 0, 0, 0, 0, 0, 1}}, {0, nil}}},
 			{comments: [][]byte{[]byte("c1"), {}, []byte("c3")}, flags: &[4]uint32{0xffffffff, 0xffffffff, 0xffffffff, 0xffffffff},
 				hashes: []tagged{{5, []byte{1, 2, 3}}}, drop: u(^uint64(0)), pid: u(0), queue: &q, verdicts: []tagged{{1, []byte{7}}}},
@@ -888,6 +890,38 @@ func gen(r *lib.Rand, tier string, emit func(string)) {
 				o = beOrder
 			}
 			e.mutations(rBlocks(r, o), o, limit)
+		}
+	}
+	// ---- every option the reader parses at fixed offsets, with a value shorter than (and exactly as long as) the
+	// parsed part, in both byte orders: interface description (I), enhanced packet (E), interface statistics (S)
+	if mode != "c14" {
+		type fixedOpt struct {
+			blk  byte
+			code uint16
+			min  int
+		}
+		for _, x := range []fixedOpt{{'I', 11, 1}, {'I', 14, 8}, {'I', 9, 1}, {'E', 2, 4}, {'E', 3, 1}, {'E', 4, 8}, {'E', 5, 8},
+			{'E', 6, 4}, {'E', 7, 1}, {'S', 2, 8}, {'S', 3, 8}, {'S', 4, 8}, {'S', 5, 8}} {
+			for _, o := range []order{leOrder, beOrder} {
+				seen := map[int]bool{}
+				for _, l := range []int{0, 1, x.min - 1, x.min} {
+					if l < 0 || seen[l] {
+						continue
+					}
+					seen[l] = true
+					opt := bOpts(o, bOpt(o, x.code, bytes.Repeat([]byte{0x09}, l)))
+					var f []byte
+					switch x.blk {
+					case 'I':
+						f = cat(bSHB(o, nil), bIDB(o, 1, 0, opt), bEPB(o, 0, 1, 1, 1, []byte{7}, nil))
+					case 'E':
+						f = cat(bSHB(o, nil), bIDB(o, 1, 0, nil), bEPB(o, 0, 1, 1, 1, []byte{7}, opt))
+					default:
+						f = cat(bSHB(o, nil), bIDB(o, 1, 0, nil), bISB(o, 0, 1, opt), bEPB(o, 0, 1, 1, 1, []byte{7}, nil))
+					}
+					e.hexCase(f, false, true)
+				}
+			}
 		}
 	}
 	// ---- garbage
